@@ -9,7 +9,7 @@
 From Coq Require Import Lia ZifyBool.
 From RecordUpdate Require Import RecordUpdate.
 From Model Require Import Base SeqNum Wire Conn Client Net TimedNet LiveNet.
-From Proofs Require Import Tac SeqNumP WireP ConnFrameP NonceP PackP C09P AckP CallbackP CustodyP DeliverP IdleP.
+From Proofs Require Import Tac SeqNumP WireP ConnFrameP NonceP PackP C09P AckP CallbackP CustodyP DeliverP AckNamesP AckNetP IdleP.
 Import RecordSetNotations.
 Open Scope Z_scope.
 
@@ -725,5 +725,292 @@ Section OneMessage.
   Proof.
     intros Hk Hj. unfold recv, keyless_refuses. rewrite Hk. cbn [is_some negb andb].
     destruct (open_dgram (Some k) dg) as [ms|] eqn:Eo; [exfalso; eapply Hj; reflexivity|reflexivity].
+  Qed.
+
+  (* ================= the pair ================= *)
+  (* th: the network is healed from th on; t0: the time of send; M: the sender's keep-alive period
+     max(keep-alive interval, send interval); tau: the sender's update() period; N0: the sender's
+     datagram number at t0; Ky, siy: the receiver's keep-alive and send intervals; inc0: the
+     receiver's incoming_messages at t0 *)
+  Variables (th t0 M tau N0 Ky siy : Z) (inc0 : list (Z * list byte)).
+  Hypothesis HM : 0 <= M.
+  Let T0 := Z.max th t0.
+
+  Definition Dlv (y : conn) : Prop := c_incoming y = inc0 ++ [(mseq, p)].
+  Definition acks_sound (acc : list Z) (h : header) : Prop :=
+    forall i, 1 <= i <= HALF -> hdr_acks (h_ack h) (h_ackbits h) i = true -> In i acc.
+
+  (* x: sender, y: receiver, wxy / wyx: the two directions of the wire (TimedNet.wdir), tickx: time
+     of the sender's latest update() *)
+  Record LJ (x y : conn) (wxy wyx : wdir) (tickx : Z) : Prop := {
+    j_sq : SQ x;
+    j_xst : c_status x = CONNECTED;
+    j_xkey : c_key x = Some k;
+    j_xhello : c_hello_sent x = 0;
+    j_xls : c_last_send x = c_last_ka x;
+    j_xM : kmax x = M;
+    j_seq : c_seq_send x = wd_n wxy /\ 0 <= N0 <= wd_n wxy /\ wd_n wxy <= HALF;
+    j_log : forall i t dg, In (i, t, dg) (wd_log wxy) -> N0 < i <= wd_n wxy /\ h_seq (d_hdr dg) = i /\ xdg dg;
+    j_fun : forall i t dg t' dg', In (i, t, dg) (wd_log wxy) -> In (i, t', dg') (wd_log wxy) -> dg = dg';
+    j_reg : forall s ks, dget s (c_pcbs x) = Some ks -> In K ks -> exists t dg, In (s, t, dg) (wd_log wxy) /\ carries dg;
+    j_y : ep_ok k Ky siy y;
+    j_win : exists g, GI y g /\ (forall m acc, g = Some (m, acc) -> m <= wd_n wxy)
+              /\ (forall i t dg, In i (accepted_idx g) -> In (i, t, dg) (wd_log wxy) -> carries dg -> Dlv y)
+              /\ (forall j t dg, In (j, t, dg) (wd_log wyx) -> ka_dgram k dg /\ acks_sound (accepted_idx g) (d_hdr dg));
+    j_mw : (Dlv y /\ mseen y) \/ (c_incoming y = inc0 /\ mfresh y);
+    j_dd : done x = true -> Dlv y;
+    j_t1 : tickx <= Z.max (c_last_send x) t0 + M;
+    j_ph : Dlv y
+           \/ (exists i t dg, In (i, t, dg) (wd_log wxy) /\ In (i, t) (wd_pend wxy) /\ carries dg /\ th <= t <= T0 + M + tau)
+           \/ (done x = false /\ c_last_send x <= T0) }.
+
+  Lemma Dlv_not_inc0 y : Dlv y -> c_incoming y = inc0 -> False.
+  Proof.
+    unfold Dlv. intros A B. rewrite B in A. apply (f_equal (@length _)) in A. rewrite app_length in A. cbn in A. lia.
+  Qed.
+
+  Lemma mseen_not_fresh y : mseen y -> mfresh y -> False.
+  Proof. unfold mseen, mfresh. lia. Qed.
+
+  (* ---------- the sender processes what its socket yields ---------- *)
+  Lemma LJ_xrecv x y wxy wyx tickx dg x' s :
+    LJ x y wxy wyx tickx -> xrecv_eff x dg x' ->
+    ((exists j t, In (j, t, dg) (wd_log wyx)) \/ (done x' = true -> done x = true)) ->
+    LJ x' y wxy (wd_present wyx s) tickx.
+  Proof.
+    intros [A1 A2 A3 A4 A5 A6 A7 A8 A8' A9 A10 A11 A12 A13 A14 A15] [B1 B2 B3 B4 B5 B6 B7 B8] Hsrc.
+    pose proof B2 as [S1 S2 S3 S4 S5 S6 S7 S8].
+    assert (Hlog : wd_log (wd_present wyx s) = wd_log wyx) by (destruct s; reflexivity).
+    assert (Hdd : done x' = true -> Dlv y).
+    { intros Hd. destruct Hsrc as [(j & t & Hin)|Hsrc]; [|exact (A13 (Hsrc Hd))].
+      destruct (B8 Hd) as [H|(s0 & ks & G1 & G2 & G3)]; [exact (A13 H)|].
+      destruct (A9 _ _ G1 G2) as (t1 & dg1 & L1 & C1).
+      destruct (A8 _ _ _ L1) as (R1 & _ & _). destruct A7 as (_ & R2 & R3).
+      destruct A11 as (g & W1 & W2 & W3 & W4).
+      destruct (W4 _ _ _ Hin) as [_ Hs]. apply (W3 s0 t1 dg1); [|exact L1|exact C1].
+      apply Hs; [lia|exact G3]. }
+    constructor.
+    - exact B1.
+    - congruence.
+    - congruence.
+    - congruence.
+    - congruence.
+    - unfold kmax in *. congruence.
+    - rewrite S2. exact A7.
+    - exact A8.
+    - exact A8'.
+    - intros s0 ks H1 H2. apply (A9 s0 ks); [apply B6; exact H1|exact H2].
+    - exact A10.
+    - destruct A11 as (g & W1 & W2 & W3 & W4). exists g. rewrite Hlog. auto.
+    - exact A12.
+    - exact Hdd.
+    - rewrite S3. exact A14.
+    - rewrite S3. destruct A15 as [H|[H|[H1 H2]]]; [left; exact H|right; left; exact H|].
+      destruct (done x') eqn:Ed; [left; apply Hdd; reflexivity|right; right; split; [reflexivity|exact H2]].
+  Qed.
+
+  (* ---------- the sender's update(): packet assembly, emission, time-out sweep ---------- *)
+  Lemma wd_emit_one w now dg : wd_emit w now [dg] = wd_emit1 now w dg. Proof. reflexivity. Qed.
+
+  Lemma LJ_xtail x y wxy wyx tickx now x' dgs :
+    LJ x y wxy wyx tickx -> xtail_eff x now x' dgs -> now - tickx <= tau -> wd_n wxy < HALF ->
+    LJ x' y (wd_emit wxy now dgs) wyx now.
+  Proof.
+    intros [A1 A2 A3 A4 A5 A6 A7 A8 A8' A9 A10 A11 A12 A13 A14 A15] [B1 B2 B3 B4 B5] Htau Hshort.
+    destruct B2 as [F1 F2 F3 F4 F5 F6 F7 F8 F9 F10 F11].
+    destruct A7 as (R1 & R2 & R3).
+    assert (HM' : kmax x' = M) by (unfold kmax in *; congruence).
+    destruct B5 as [(-> & E1 & E2 & E3 & E4)|(dg & -> & E1 & E2 & E3 & E4 & E5 & E6)].
+    - (* nothing emitted *)
+      cbn [wd_emit fold_left].
+      constructor.
+      + exact B1.
+      + congruence.
+      + congruence.
+      + congruence.
+      + exact B3.
+      + exact HM'.
+      + rewrite E2. auto.
+      + exact A8.
+      + exact A8'.
+      + intros s ks H1 H2. apply (A9 s ks); [apply E4; exact H1|exact H2].
+      + exact A10.
+      + exact A11.
+      + exact A12.
+      + rewrite B4. exact A13.
+      + rewrite E3. lia.
+      + rewrite B4, E3. exact A15.
+    - (* one datagram emitted: number wd_n wxy + 1 *)
+      rewrite wd_emit_one. unfold wd_emit1.
+      assert (Hs : seq_succ (c_seq_send x) = wd_n wxy + 1) by (rewrite R1; apply seq_succ_plain; unfold RING, HALF in *; lia).
+      assert (Hin_new : forall i t dg0, In (i, t, dg0) (wd_log wxy ++ [(wd_n wxy + 1, now, dg)]) ->
+                          In (i, t, dg0) (wd_log wxy) \/ (i = wd_n wxy + 1 /\ t = now /\ dg0 = dg)).
+      { intros i t dg0 H. apply in_app_or in H as [H|[H|[]]]; [left; exact H|right]. injection H as <- <- <-. auto. }
+      constructor; cbn [wd_n wd_v wd_log wd_pend].
+      + exact B1.
+      + congruence.
+      + congruence.
+      + congruence.
+      + exact B3.
+      + exact HM'.
+      + split; [congruence|]. split; [lia|]. unfold HALF in *. lia.
+      + intros i t dg0 H. destruct (Hin_new _ _ _ H) as [H'|(-> & -> & ->)].
+        * destruct (A8 _ _ _ H') as (P1 & P2 & P3). split; [lia|auto].
+        * split; [lia|]. split; [congruence|exact E4].
+      + intros i t dg0 t' dg0' H H'.
+        destruct (Hin_new _ _ _ H) as [G|(-> & -> & ->)]; destruct (Hin_new _ _ _ H') as [G'|(G1 & G2 & G3)].
+        * eapply A8'; eassumption.
+        * subst. destruct (A8 _ _ _ G) as (P1 & _). lia.
+        * destruct (A8 _ _ _ G') as (P1 & _). lia.
+        * congruence.
+      + intros s ks H1 H2. destruct (E6 _ _ H1 H2) as [H|(-> & Hc)].
+        * destruct (A9 _ _ H H2) as (t & dg0 & L & C). exists t, dg0. split; [apply in_or_app; left; exact L|exact C].
+        * exists now, dg. split; [apply in_or_app; right; left; rewrite Hs; reflexivity|exact Hc].
+      + exact A10.
+      + destruct A11 as (g & W1 & W2 & W3 & W4). exists g. split; [exact W1|]. split; [intros m acc Hg; specialize (W2 _ _ Hg); lia|].
+        split; [|exact W4].
+        intros i t dg0 Hi H Hc. destruct (Hin_new _ _ _ H) as [H'|(-> & -> & ->)]; [eapply W3; eassumption|].
+        exfalso. destruct g as [[m acc]|]; [|destruct Hi]. cbn in Hi, W1. destruct W1 as [HR _].
+        pose proof (R_le _ _ _ HR _ Hi). specialize (W2 _ _ eq_refl). lia.
+      + exact A12.
+      + rewrite B4. exact A13.
+      + rewrite E2. lia.
+      + rewrite B4, E2. destruct A15 as [H|[(i & t & dg0 & P1 & P2 & P3 & P4)|[H1 H2]]]; [left; exact H| |].
+        * right. left. exists i, t, dg0. split; [apply in_or_app; left; exact P1|]. split; [apply in_or_app; left; exact P2|auto].
+        * rewrite A5 in *. destruct (Z_le_gt_dec th now) as [Hth|Hth].
+          -- right. left. exists (wd_n wxy + 1), now, dg.
+             split; [apply in_or_app; right; left; reflexivity|]. split; [apply in_or_app; right; left; reflexivity|].
+             split; [apply E5; exact H1|]. subst T0. lia.
+          -- right. right. split; [exact H1|]. subst T0. lia.
+  Qed.
+
+  (* ---------- the receiver is offered a datagram of the sender ---------- *)
+  Lemma GI_insert y g i : GI y g -> 1 <= i <= HALF -> (forall m acc, g = Some (m, acc) -> m <= HALF) ->
+    match bf_insert (c_bf_pkt y) i with
+    | Err _ => In i (accepted_idx g)
+    | Ok bf => forall y', c_bf_pkt y' = bf -> GI y' (ghost_add g i)
+    end.
+  Proof.
+    intros HG Hi Hm. assert (Hw : wire i = i) by (apply wire_small; unfold RING, HALF in *; lia).
+    destruct g as [[m acc]|]; cbn [GI ghost_add accepted_idx] in *.
+    - destruct HG as [HR Hnb]. specialize (Hm _ _ eq_refl). pose proof (R_m _ _ _ HR) as Hm1.
+      pose proof (R_step _ _ _ i HR ltac:(lia) ltac:(lia)) as Hs. rewrite Hw in Hs.
+      destruct (spec_dup _ m acc i) eqn:Hd.
+      + rewrite Hs. unfold spec_dup in Hd. apply andb_prop in Hd as [Hd _]. apply andb_prop in Hd as [Hd _].
+        apply InB_In. exact Hd.
+      + destruct Hs as (f' & -> & Hnb' & HR'). intros y' ->. split; [exact HR'|congruence].
+    - rewrite HG. destruct (R_first 32 i ltac:(lia) ltac:(lia)) as [E1 E2]. rewrite Hw in E1, E2. rewrite E1.
+      intros y' ->. split; [exact E2|reflexivity].
+  Qed.
+
+  Lemma accepted_add g i : accepted_idx (ghost_add g i) = i :: accepted_idx g.
+  Proof. destruct g as [[m acc]|]; reflexivity. Qed.
+
+  Lemma LJ_yrecv x y wxy wyx tickx i t dg now orcs y' o :
+    LJ x y wxy wyx tickx -> In (i, t, dg) (wd_log wxy) -> recv y now dg orcs = (y', o) ->
+    LJ x y' (wd_present wxy (SPeer i)) wyx tickx /\ raised o = false /\ no_emit o.
+  Proof.
+    intros [A1 A2 A3 A4 A5 A6 A7 A8 A8' A9 A10 A11 A12 A13 A14 A15] Hin E.
+    destruct (A8 _ _ _ Hin) as (Hi & Hsq & ws & Ho & Hws). destruct A7 as (R1 & R2 & R3).
+    assert (Hm : mfresh y \/ mseen y) by (destruct A12 as [[_ H]|[_ H]]; auto).
+    destruct (recv_Y _ _ _ _ _ _ _ _ _ A10 Ho Hws Hm E) as (Hr & Ne & Hy' & _ & _ & _ & Hcase).
+    split; [|split; [exact Hr|exact Ne]].
+    destruct A11 as (g & W1 & W2 & W3 & W4).
+    assert (Hgm : forall m acc, g = Some (m, acc) -> m <= HALF) by (intros m acc Hg; specialize (W2 _ _ Hg); lia).
+    pose proof (GI_insert y g i W1 ltac:(lia) Hgm) as Hins. rewrite Hsq in Hcase.
+    assert (Hlog : wd_log (wd_present wxy (SPeer i)) = wd_log wxy) by reflexivity.
+    assert (Hn : wd_n (wd_present wxy (SPeer i)) = wd_n wxy) by reflexivity.
+    (* delivered stays delivered *)
+    assert (Hstab : c_incoming y' = c_incoming y -> Dlv y -> Dlv y') by (unfold Dlv; congruence).
+    (* what accepting a datagram that carries the message does *)
+    assert (Hacc : forall bf, bf_insert (c_bf_pkt y) i = Ok bf -> carries dg -> Dlv y').
+    { intros bf Eb (ws' & Ho' & _ & Hne). rewrite Eb in Hcase. destruct Hcase as (_ & _ & C1 & C2).
+      assert (ws' = ws) by congruence. subst ws'.
+      destruct A12 as [[HD Hs]|[HU Hf]].
+      - destruct (C1 (or_intror Hs)) as [C _]. apply Hstab; assumption.
+      - destruct (C2 Hne Hf) as [C _]. unfold Dlv. rewrite C, HU. reflexivity. }
+    destruct (bf_insert (c_bf_pkt y) i) as [bf|er] eqn:Eb.
+    - (* accepted *)
+      destruct Hcase as (C0 & C0' & C1 & C2).
+      assert (Hinc : Dlv y -> Dlv y').
+      { intros HD. destruct A12 as [[_ Hs]|[HU _]]; [|exfalso; eapply Dlv_not_inc0; eassumption].
+        destruct (C1 (or_intror Hs)) as [C _]. apply Hstab; assumption. }
+      constructor; rewrite ?Hlog, ?Hn; auto.
+      + exists (ghost_add g i). split; [apply Hins; exact C0|]. split; [|split].
+        * intros m acc Hg. destruct g as [[m0 acc0]|]; cbn in Hg; injection Hg as <- <-; [specialize (W2 _ _ eq_refl)|]; lia.
+        * intros i' t' dg' Hi' Hin' Hc. rewrite accepted_add in Hi'. destruct Hi' as [<-|Hi'].
+          -- assert (dg' = dg) by (eapply A8'; eassumption). subst dg'. eapply Hacc; [reflexivity|exact Hc].
+          -- apply Hinc. eapply W3; eassumption.
+        * intros j t' dg' Hj. destruct (W4 _ _ _ Hj) as [P1 P2]. split; [exact P1|].
+          intros i' Hi' Ha. rewrite accepted_add. right. apply P2; assumption.
+      + destruct ws as [|w ws'] eqn:Ews.
+        * destruct (C1 (or_introl eq_refl)) as [Ci Cm]. unfold Dlv, mseen, mfresh in *. rewrite Ci, Cm. exact A12.
+        * destruct A12 as [[HD Hs]|[HU Hf]].
+          -- destruct (C1 (or_intror Hs)) as [Ci Cm]. left. unfold Dlv, mseen in *. rewrite Ci, Cm. auto.
+          -- destruct (C2 ltac:(discriminate) Hf) as [Ci Cm]. left. split; [|exact Cm]. unfold Dlv. rewrite Ci, HU. reflexivity.
+      + destruct A15 as [H|[(i0 & t0' & dg0 & P1 & P2 & P3 & P4)|H]]; [left; auto| |right; right; exact H].
+        destruct (Z.eq_dec i0 i) as [->|Hne].
+        * left. assert (dg0 = dg) by (eapply A8'; eassumption). subst dg0. eapply Hacc; [reflexivity|exact P3].
+        * right. left. exists i0, t0', dg0. split; [exact P1|]. split; [|auto].
+          cbn [wd_present wd_pend]. apply filter_In. split; [exact P2|]. cbn. lia.
+    - (* refused: a copy of it was accepted before *)
+      destruct Hcase as (C0 & Ci & Cm & _).
+      assert (Hinc : Dlv y -> Dlv y') by (apply Hstab; exact Ci).
+      constructor; rewrite ?Hlog, ?Hn; auto.
+      + exists g. split; [eapply GI_same; [exact C0|exact W1]|]. split; [exact W2|]. split; [|exact W4].
+        intros i' t' dg' Hi' Hin' Hc. apply Hinc. eapply W3; eassumption.
+      + unfold Dlv, mseen, mfresh in *. rewrite Ci, Cm. exact A12.
+      + destruct A15 as [H|[(i0 & t0' & dg0 & P1 & P2 & P3 & P4)|H]]; [left; auto| |right; right; exact H].
+        destruct (Z.eq_dec i0 i) as [->|Hne].
+        * left. apply Hinc. eapply W3; [exact Hins|exact P1|exact P3].
+        * right. left. exists i0, t0', dg0. split; [exact P1|]. split; [|auto].
+          cbn [wd_present wd_pend]. apply filter_In. split; [exact P2|]. cbn. lia.
+  Qed.
+
+  (* ... or nothing / junk: only the drop counter moves *)
+  Lemma LJ_ysame x y wxy wyx tickx y' s :
+    LJ x y wxy wyx tickx -> same_sess y y' -> quiet y' ->
+    (match s with SPeer _ => False | _ => True end) ->
+    LJ x y' (wd_present wxy s) wyx tickx.
+  Proof.
+    intros [A1 A2 A3 A4 A5 A6 A7 A8 A8' A9 A10 A11 A12 A13 A14 A15] S Q Hs.
+    assert (Hw : wd_present wxy s = wxy) by (destruct s; [reflexivity|destruct Hs|reflexivity]). rewrite Hw.
+    pose proof S as [_ T1 T2 T3 T4 T5 T6 T7 T8 T9].
+    constructor; auto.
+    - eapply ep_ok_sess; eassumption.
+    - destruct A11 as (g & W1 & W2 & W3 & W4). exists g. split; [eapply GI_same; eassumption|]. split; [exact W2|]. split; [|exact W4].
+      intros i t dg H1 H2 H3. unfold Dlv. rewrite T8. eapply W3; eassumption.
+    - unfold Dlv, mseen, mfresh in *. rewrite T8, T7. exact A12.
+    - intros H. unfold Dlv. rewrite T8. apply A13. exact H.
+    - unfold Dlv in *. rewrite T8. exact A15.
+  Qed.
+
+  (* ---------- the receiver's update(): at most a keep-alive whose ack fields are its window ---------- *)
+  Lemma LJ_ytick x y wxy wyx tickx y' now dgs :
+    LJ x y wxy wyx tickx -> ep_ok k Ky siy y' -> c_bf_pkt y' = c_bf_pkt y -> c_incoming y' = c_incoming y ->
+    c_bf_msg y' = c_bf_msg y ->
+    Forall (fun dg => ka_dgram k dg /\ ack_of_window (c_bf_pkt y) (d_hdr dg)) dgs ->
+    LJ x y' wxy (wd_emit wyx now dgs) tickx.
+  Proof.
+    intros [A1 A2 A3 A4 A5 A6 A7 A8 A8' A9 A10 A11 A12 A13 A14 A15] Hy' Hb Hi Hm Hd.
+    constructor; auto.
+    - destruct A11 as (g & W1 & W2 & W3 & W4). exists g. split; [eapply GI_same; eassumption|]. split; [exact W2|]. split.
+      + intros i t dg H1 H2 H3. unfold Dlv. rewrite Hi. eapply W3; eassumption.
+      + assert (Hnew : forall dg, In dg dgs -> ka_dgram k dg /\ acks_sound (accepted_idx g) (d_hdr dg)).
+        { intros dg Hin. rewrite Forall_forall in Hd. destruct (Hd _ Hin) as [P1 P2]. split; [exact P1|].
+          pose proof (GI_BAok _ _ _ W1 P2) as Hok. intros i Hi' Ha.
+          assert (Hw : wire i = i) by (apply wire_small; unfold RING, HALF in *; lia).
+          destruct g as [[m acc]|].
+          - destruct Hok as (_ & Hn & _). cbn [accepted_idx]. specialize (W2 _ _ eq_refl). destruct A7 as (_ & _ & R3).
+            destruct W1 as [HR _]. pose proof (R_m _ _ _ HR).
+            apply (Hn m acc eq_refl i); [lia|lia|rewrite Hw; exact Ha].
+          - destruct Hok as [E1 E2]. rewrite E1, E2, hdr_acks_zero in Ha by (unfold RING, HALF in *; lia). discriminate. }
+        clear Hd. revert wyx W4. induction dgs as [|dg r IH]; intros wyx W4; [exact W4|].
+        cbn [wd_emit fold_left]. apply IH; [intros dg' H; apply Hnew; right; exact H|].
+        intros j t dg' Hin. unfold wd_emit1 in Hin. cbn [wd_log] in Hin. apply in_app_or in Hin as [Hin|[Hin|[]]]; [eapply W4; exact Hin|].
+        injection Hin as _ _ <-. apply Hnew. left. reflexivity.
+    - unfold Dlv, mseen, mfresh in *. rewrite Hi, Hm. exact A12.
+    - intros H. unfold Dlv. rewrite Hi. apply A13. exact H.
+    - unfold Dlv in *. rewrite Hi. exact A15.
   Qed.
 End OneMessage.
